@@ -94,8 +94,10 @@ def simulate_goarch(ctx, bindir, goarches, tabled):
     return viol
 
 
+# what the Go runtime itself may ask of the kernel on a wired thread between two statements (memory, signal return, futex; asynchronous
+# preemption is switched off for the run, so no tgkill / getpid)
 RUNTIME_CALLS = {"rt_sigreturn", "rt_sigprocmask", "sigaltstack", "futex", "sched_yield", "nanosleep", "madvise", "mmap", "munmap", "mprotect", "brk",
-                 "tgkill", "getpid", "gettid", "epoll_pwait", "clock_gettime", "restart_syscall"}
+                 "epoll_pwait", "restart_syscall"}
 
 
 def simulate_stubs(ctx, bindir, facts, histories):
